@@ -227,6 +227,42 @@ pub fn run(cfg: &Cfg, rep: &mut Report) {
                 viol(rep, "an ECMAScript property spelling is rejected under v, with \\P, or inside a class", sp, "v", "Err".into(), "Ok".into());
             }
         }
+        // The scan finds members with an unanchored search, whose start predicate proposes only
+        // positions whose first byte can begin a member: a false member of the *instruction* (a
+        // padding value, a sentinel) stays invisible there. Ask again in a position the prefilter
+        // does not guard, for the ends of the code space, the encoding boundaries and the set's own
+        // first and last members and their neighbours.
+        {
+            let mut probes: Vec<u32> = vec![0x0, 0x1, 0x7F, 0x80, 0x7FF, 0x800, 0xFFFF, 0x10000, 0x10FFFF];
+            if let (Some(&(lo, _)), Some(&(_, hi))) = (base.ranges().first(), base.ranges().last()) {
+                for c in [lo.saturating_sub(1), lo, hi, (hi + 1).min(0x10FFFF)] {
+                    probes.push(c);
+                }
+            }
+            probes.retain(|c| char::from_u32(*c).is_some());
+            probes.sort_unstable();
+            probes.dedup();
+            for (tmpl, flags) in [("^\\p{X}$", "u"), ("(?<=^\\p{X})$", "v"), ("^[\\p{X}]$", "iu")] {
+                // (under iu the set may legitimately grow by case closure: only asked about probes
+                // without case partners)
+                let pat = tmpl.replace("X", &val.canonical);
+                let Guarded::Ok(Ok(re)) = engine::compile(&engine::to_cps(&pat), Flags::from_str(flags), false) else { continue };
+                for &c in &probes {
+                    let s = char::from_u32(c).unwrap().to_string();
+                    let want = base.contains(c);
+                    if flags == "iu" && !crate::gen::partners(c).iter().all(|&x| x == c || (x ^ 0x20) == c) {
+                        continue;
+                    }
+                    rep.inc("anchored_membership_probes");
+                    if let Guarded::Ok(m) = engine::find_first(&re, &s, 0, Api::Utf8, 10_000_000) {
+                        let got = m.is_some();
+                        if got != want {
+                            viol(rep, "membership asked in an anchored position differs from the set found by scanning", &val.canonical, flags, format!("{} on U+{:04X}: matched = {}", pat, c, got), format!("matched = {} (the scanned set)", want));
+                        }
+                    }
+                }
+            }
+        }
         // complement and the other syntactic positions, for the canonical spelling
         for (pat, flags, want, what) in [
             (format!("\\P{{{}}}", val.canonical), "u", sc.subtract(&base), "\\P{..} is not the complement of \\p{..}"),
@@ -448,6 +484,27 @@ pub fn run(cfg: &Cfg, rep: &mut Report) {
             "gc=Any", "gc=ASCII", "gc=Assigned", "sc=Any", "General_Category=Alphabetic", "Script=Lu", "Script_Extensions=L", "sc=Qaaa", "sc=Zsym", "sc=Zmth", "sc=Zxxx", "sc=Zsye", "sc=Latf", "sc=Hans", "sc=Hant", "sc=Jpan", "sc=Kore", "sc=Root", "sc=Katakana_Or_Hiragana_", "Emoji_Keycap", "RGI", "Emoji_Flag_Sequence",
         ] {
             bad.push(extra.to_string());
+        }
+        // structural near misses of name=value: chained names, doubled / misplaced '=', a value in
+        // name position, a binary property as the value of a non-binary one
+        {
+            let names = ["gc", "General_Category", "sc", "Script", "scx", "Script_Extensions"];
+            let vals = [("gc", "Lu"), ("gc", "Uppercase_Letter"), ("sc", "Greek"), ("sc", "Grek"), ("scx", "Latin"), ("scx", "Latn")];
+            for n1 in names {
+                for (n2, val) in vals {
+                    bad.push(format!("{}={}={}", n1, n2, val));
+                    bad.push(format!("{}={}={}", n1, n1, val));
+                    bad.push(format!("{}=={}", n1, val));
+                    bad.push(format!("={}={}", n2, val));
+                    bad.push(format!("{}={}=", n2, val));
+                    bad.push(format!("{}={}={}", n2, val, val));
+                    bad.push(format!("{}={}", val, n2));
+                    bad.push(format!("{}={}={}={}", n1, n2, n2, val));
+                }
+                bad.push(format!("{}=Alphabetic", n1));
+                bad.push(format!("{}=ASCII=Lu", n1));
+                bad.push(format!("Alphabetic={}=Lu", n1));
+            }
         }
         // UCD aliases and properties that ECMAScript does not admit (PropertyAliases.txt short names
         // of non-ES properties, and extra aliases of ES properties such as WSpace for White_Space)
